@@ -39,6 +39,11 @@ def _recs(label, thunks):
     return out
 
 
+def _misc_ref():
+    from mc.ref import misc_ref
+    return misc_ref
+
+
 def layers():
     """-> list of (layer name, class, [record bytes])"""
     from cryptodatahub.tls.version import TlsVersion
@@ -116,7 +121,11 @@ def layers():
     out.append(('ldap_response', ldap.LDAPExtendedResponseStartTLS,
                 _recs('ldap_response', [lambda c=c: ldap.LDAPExtendedResponseStartTLS(c).compose()
                                         for c in (ldap.LDAPResultCode.SUCCESS, ldap.LDAPResultCode.PROTOCOL_ERROR,
-                                                  ldap.LDAPResultCode.OTHER)])))
+                                                  ldap.LDAPResultCode.OTHER)] + [
+                    # frames the composer never writes: a long-form outer length (diagnosticMessage of 200 octets) and
+                    # the four-octet BER lengths Active Directory uses (reference-encoded, mc/ref/misc_ref.py)
+                    lambda: _misc_ref().ldap_starttls_response(0, 1, b'', b'd' * 200),
+                    lambda: _misc_ref().ldap_starttls_response(0, 1, b'', b'', {'msg': 4, 'op': 4})])))
     out.append(('postgresql_sslrequest', postgresql.SslRequest,
                 _recs('postgresql_sslrequest', [lambda: postgresql.SslRequest().compose()])))
     out.append(('postgresql_sync', postgresql.Sync, _recs('postgresql_sync', [lambda: postgresql.Sync().compose()])))
